@@ -118,11 +118,21 @@ func checkC11(c *Check) {
 		n  string
 		lp LP
 	}{{"OCSP result is non-nil", A("-IsNil(" + v.OC + ")")}, {"OCSP result is Unknown", unk}, {"certificate has distribution points", hasCRL}} {
+		if g.n == "certificate has distribution points" {
+			// a property of the certificate: may have been tested earlier in the iteration (hoisted into a local)
+			c.noPathFromInIter(pg, "O-C11.2", "fallback only if "+g.n, "after the OCSP checker the CRL checker is called only if "+g.n, v.L, ocCall, ccSrc, AnyOf(g.lp, RangeNext(v.L)), g.lp)
+			continue
+		}
 		c.noPathFrom(pg, "O-C11.2", "fallback only if "+g.n, "after the OCSP checker the CRL checker is called only if "+g.n, ocCall, ccSrc, ptr(AnyOf(g.lp, RangeNext(v.L))))
 	}
+	// (a test made earlier in the iteration speaks about this certificate only if the local that keeps
+	// its outcome is per-iteration: the goroutine reads no loop-carried variable, O-C17.3)
+	c.floor("per-iteration state rules (shared with C17)", 1, shareRulesWhere(c, checkC17, []string{"O-C17.3"}, "O-C11.2", "per-certificate state: ", func(n string) bool {
+		return strings.Contains(n, "loop-carried")
+	}))
 	bare := isStoreOf(slot, func(k string) bool { return k == v.OC || k == "nil" })
 	c.floor("bare OCSP result stores", 1, len(edgeSources(pg, bare)))
-	c.noPathFrom(pg, "O-C11.2", "OCSP verdict kept only if conclusive or no CRL", "the OCSP result becomes the certificate's result only if it is nil, not Unknown, or the certificate has no distribution points", ocCall, edgeSources(pg, bare), ptr(AnyOf(A("+IsNil("+v.OC+")"), A("-Eq(0, "+v.OC+".Result)"), noCRL, RangeNext(v.L))))
+	c.noPathFromInIter(pg, "O-C11.2", "OCSP verdict kept only if conclusive or no CRL", "the OCSP result becomes the certificate's result only if it is nil, not Unknown, or the certificate has no distribution points", v.L, ocCall, edgeSources(pg, bare), AnyOf(A("+IsNil("+v.OC+")"), A("-Eq(0, "+v.OC+".Result)"), noCRL, RangeNext(v.L)), noCRL)
 	// after the OCSP checker, the iteration ends with the bare result or with the fallback result
 	fb := isStoreOf(slot, func(k string) bool { return k == v.CC })
 	c.noPathFrom(pg, "O-C11.2", "OCSP arm always stores a result", "after the OCSP checker the iteration stores either the OCSP result or the fallback result", ocCall, edgeTargets(pg, AnyOf(RangeNext(v.L), RangeDone(v.L))), ptr(AnyOf(bare, fb)))
